@@ -2,6 +2,7 @@ import QuinnModel.Lemmas.LossTimer
 import QuinnModel.Lemmas.Lifecycle
 import QuinnModel.Lemmas.Amplification
 import QuinnModel.Lemmas.StreamsProgress
+import QuinnModel.Lemmas.StreamsReadable
 /-
 C02 — Connections make progress: no deadlock under fair loss.   (property theorems only; PARTIAL)
 Liveness under probabilistic fairness is not an inductive invariant.  Proved here: the deadlock-freedom facts
@@ -11,7 +12,8 @@ datagram).  The credit-return and event theorems of the stream layer are in Prop
 Stream layer (Lemmas/StreamsProgress.lean, for EVERY state of the `StreamsState` model, hence after every history): a
 queued event reaches an application that polls until nothing is reported; MAX_STREAMS that makes room for a refused
 opener yields `Available`; MAX_STREAM_DATA / connection-level credit that makes room for a refused writer yields
-`Writable`.
+`Writable`; a STREAM frame / RESET_STREAM accepted on a half whose reader is waiting yields `Readable` (or `Opened` for a
+stream the application does not hold yet).
 Not proved: that the whole connection eventually completes — that is checked on real endpoints by the simulator
 (completion of event-driven workloads under every seeded fair-loss schedule, `unarmed-timer` oracle at every
 quiescent point, 0-RTT / Retry / key-update / migration schedules).
@@ -113,6 +115,53 @@ theorem writable_after_connection_credit (s : State) (id wl fuel : Nat) (x : Sen
     (es : List Event) (s' : State) (hd : drain fuel s = some (es, s')) : Event.writable id ∈ es :=
   blocked_stream_reported fuel s id x wl hmem hx hw hc hwl hpos hf es s' hd
 
+open Streams in
+/-- lost `Readable`: a reader that was told `Blocked` holds a receiving half that is still receiving and that it has
+    not stopped (`hg`, `hrecv`, `hst`; `read` answers `Blocked` in no other state).  EVERY STREAM frame that is accepted
+    on such a half — new contiguous data, a FIN, or anything else — tells the application: if it already holds the
+    stream (locally initiated, or below `next_remote`, i.e. reported by `Opened` before) `Readable id` is queued and
+    the application polling until nothing is reported is handed it; otherwise the `Opened` flag of the direction is
+    raised and the stream lies below `next_remote` (the next `poll` reports `Opened`, `accept` hands the stream out) -/
+theorem readable_after_data (s s' s1 : State) (id off len fuel : Nat) (fin t : Bool) (rs : Recv)
+    (h : s.received id off len fin = some (s', .ok t))
+    (hg : s.getOrInsertRecv id = some (rs, s1)) (hrecv : rs.isReceiving = true) (hst : rs.stopped = false) :
+    ((sidInitiator id = s.side ∨ sidIndex id < s.nextRemote.get (sidDir id)) →
+      Event.readable id ∈ s'.events ∧
+      (pollMeasure s' ≤ fuel → ∀ es s'', drain fuel s' = some (es, s'') → Event.readable id ∈ es)) ∧
+    (¬ (sidInitiator id = s.side ∨ sidIndex id < s.nextRemote.get (sidDir id)) →
+      s'.opened.get (sidDir id) = true ∧ sidIndex id < s'.nextRemote.get (sidDir id)) := by
+  have hn := received_notifies h hg hrecv hst
+  unfold Notified at hn
+  constructor
+  · intro hh
+    rw [if_pos hh] at hn
+    exact ⟨hn, fun hf es s'' hd => Streams.queued_event_delivered fuel _ _ hn hf es s'' hd⟩
+  · intro hh
+    rw [if_neg hh] at hn
+    exact hn
+
+open Streams in
+/-- the same for a RESET_STREAM that takes effect (`hr`: not a duplicate, no error) on a half the application has
+    not stopped -/
+theorem readable_after_reset (s s' s1 : State) (id code fo fuel : Nat) (t : Bool) (rs rs' : Recv)
+    (h : s.receivedReset id code fo = some (s', .ok t))
+    (hg : s.getOrInsertRecv id = some (rs, s1))
+    (hr : rs.reset code fo s1.dataRecvd s1.localMaxData = some (.ok (true, rs'))) (hst : rs.stopped = false) :
+    ((sidInitiator id = s.side ∨ sidIndex id < s.nextRemote.get (sidDir id)) →
+      Event.readable id ∈ s'.events ∧
+      (pollMeasure s' ≤ fuel → ∀ es s'', drain fuel s' = some (es, s'') → Event.readable id ∈ es)) ∧
+    (¬ (sidInitiator id = s.side ∨ sidIndex id < s.nextRemote.get (sidDir id)) →
+      s'.opened.get (sidDir id) = true ∧ sidIndex id < s'.nextRemote.get (sidDir id)) := by
+  have hn := receivedReset_notifies h hg hr hst
+  unfold Notified at hn
+  constructor
+  · intro hh
+    rw [if_pos hh] at hn
+    exact ⟨hn, fun hf es s'' hd => Streams.queued_event_delivered fuel _ _ hn hf es s'' hd⟩
+  · intro hh
+    rw [if_neg hh] at hn
+    exact hn
+
 -- non-vacuity
 example : LossTimer.covered ⟨false, false, false, 3, true, 0, 100, 25, false, ⟨false, none, none⟩, ⟨false, none, none⟩, ⟨true, some 7, none⟩⟩ := by
   simp [LossTimer.covered]
@@ -136,5 +185,17 @@ open Streams in
 example : (drain 3 (listedWriter.receivedMaxData 40)).map (·.1) = some [Event.writable 0] := by decide
 open Streams in
 example : (drain 3 listedWriter).map (·.1) = some [] := by decide
+/-- a server whose reader of the client's stream 0 was told Blocked after 5 bytes (stream accepted, 5 bytes read) -/
+def blockedReader : Option Streams.State :=
+  Streams.runSteps Streams.State.initial [.new ⟨.server, 2, 2, 1000, 1000, 1000⟩, .params ⟨100, 100, 100, 4, 4, 1000⟩,
+    .stream 0 0 5 false, .poll, .accept .bi, .read 0 100, .poll]
+open Streams in
+example : (blockedReader.bind fun s => (s.read 0 100).map (·.2)) = some (.ok 0 .blocked false) := by decide
+open Streams in
+example : (blockedReader.bind fun s => (s.received 0 5 3 false).bind fun r => (drain 3 r.1).map (·.1)) =
+    some [Event.readable 0] := by decide
+open Streams in
+example : (blockedReader.bind fun s => (s.receivedReset 0 7 5).bind fun r => (drain 3 r.1).map (·.1)) =
+    some [Event.readable 0] := by decide
 
 end QM.Props.C02
